@@ -37,21 +37,26 @@ theorem WinU.avoidCx {cx : Cx} {lo hi : Nat} {s : St} {k1 : Nat} {Δ : Env} (hw 
   have := hw.h1 _ hb; have := hw.h2 _ hb
   omega
 
-/-- what the operand handler guarantees for one operand -/
+/-- what the operand handler guarantees for one operand (for every replacement of nested blocks in
+    what it produced) -/
 def OpEr (cx : Cx) (lo hi : Nat) (e : Node) (asg args : List Node) (R : (Node × List Node × List Node) × St) (s : St) : Prop :=
-  ∃ new more, R.1.2.1 = asg ++ new ∧ R.1.2.2 = args ++ more ∧ AllTA new ∧ InertL more ∧ s.counter ≤ R.2.counter ∧
-    (∀ σ, cx.ext σ → ∃ Δ, eraseAsg σ new = Δ ++ σ ∧ WinU lo hi s.counter R.2.counter Δ) ∧
-    (∀ σ Δ2, cx.ext σ → Avoid s.counter R.2.counter Δ2 → AvoidP cx.bad Δ2 →
-      ∃ X Δ3, erase (Δ2 ++ eraseAsg σ new) R.1.1 = (X, Δ3 ++ (Δ2 ++ eraseAsg σ new)) ∧ Sim X e ∧ Win lo hi Δ3)
+  ∃ new more, R.1.2.1 = asg ++ new ∧ R.1.2.2 = args ++ more ∧ AllTA new ∧ InertL more ∧ noBlkL more = true ∧
+    s.counter ≤ R.2.counter ∧
+    (∀ new'', BRgL new new'' → ∀ σ, cx.ext σ → ∃ Δ, eraseAsg σ new'' = Δ ++ σ ∧ WinU lo hi s.counter R.2.counter Δ) ∧
+    (∀ new'' x'', BRgL new new'' → BRg R.1.1 x'' → ∀ σ Δ2, cx.ext σ → Avoid s.counter R.2.counter Δ2 → AvoidP cx.bad Δ2 →
+      ∃ X Δ3, erase (Δ2 ++ eraseAsg σ new'') x'' = (X, Δ3 ++ (Δ2 ++ eraseAsg σ new'')) ∧ Sim X e ∧ Win lo hi Δ3)
 
 theorem opEr_inplace (cx : Cx) (lo hi : Nat) (e' e : Node) (asg args more : List Node) (s : St)
-    (hE : Er cx lo hi e' e) (hm : InertL more) :
+    (hE : Er cx lo hi e' e) (hm : InertL more) (hnb : noBlkL more = true) :
     OpEr cx lo hi e asg args ((e', asg, args ++ more), s) s := by
-  refine ⟨[], more, by simp, rfl, AllTA.nil, hm, Nat.le_refl _, ?_, ?_⟩
-  · intro σ _; exact ⟨[], rfl, WinU.nil _ _ _ _⟩
-  · intro σ Δ2 hσ _ ha
+  refine ⟨[], more, by simp, rfl, AllTA.nil, hm, hnb, Nat.le_refl _, ?_, ?_⟩
+  · intro new'' hn σ _
+    rw [BRgL.nil_inv hn]
+    exact ⟨[], rfl, WinU.nil _ _ _ _⟩
+  · intro new'' x'' hn hx σ Δ2 hσ _ ha
+    rw [BRgL.nil_inv hn]
     simp only [eraseAsg]
-    exact hE (Δ2 ++ σ) (Cx.ext_append hσ ha)
+    exact hE x'' hx (Δ2 ++ σ) (Cx.ext_append hσ ha)
 
 theorem erase_tempAssign (σ : Env) (k : Nat) (r : Node) (sp : Span) :
     erase σ (.assign "=" (tempIdent k) r sp) =
@@ -74,6 +79,34 @@ theorem erase_assignRight (σ σ1 : Env) (e' X : Node) (kind : IdentKind) (h : e
 theorem erase_temp (σ : Env) (k : Nat) (sp : Span) : erase σ (.ident (.temp k) sp) = ((σ.get k).getD (.ident (.temp k) sp), σ) := by
   simp only [erase]
 
+theorem assignRight_BRg_inv {e' r'' : Node} {kind : IdentKind} (h : BRg (assignRight e' kind) r'') :
+    ∃ e'', r'' = assignRight e'' kind ∧ BRg e' e'' := by
+  cases kind with
+  | expr => exact ⟨r'', rfl, h⟩
+  | spread =>
+    simp only [assignRight] at h
+    obtain ⟨es', rfl, hes⟩ := h.array_inv
+    obtain ⟨a', rfl, ha⟩ := BRgL.single_inv hes
+    obtain ⟨e'', rfl, he⟩ := ha.arg_inv
+    exact ⟨e'', rfl, he⟩
+
+/-- a replacement inside `t = operand` only touches the operand -/
+theorem tempAssign_BRg_inv {k : Nat} {e' a'' : Node} {kind : IdentKind} {sp : Span}
+    (h : BRg (.assign "=" (tempIdent k) (assignRight e' kind) sp) a'') :
+    ∃ e'', a'' = .assign "=" (tempIdent k) (assignRight e'' kind) sp ∧ BRg e' e'' := by
+  obtain ⟨l', r', rfl, hl, hr⟩ := h.assign_inv
+  rw [BRg_noBlk (noBlk_tempIdent k) hl]
+  obtain ⟨e'', rfl, he⟩ := assignRight_BRg_inv hr
+  exact ⟨e'', rfl, he⟩
+
+theorem noBlk_arg {s : Option Span} {e : Node} (h : noBlk e = true) : noBlk (.arg s e) = true := by
+  rw [noBlk_eq]
+  simp only [isBlockNode, kids, noBlkL_cons, noBlkL_nil, h]
+  rfl
+
+theorem noBlk_exprOrSpread {e : Node} (k : IdentKind) (h : noBlk e = true) : noBlk (exprOrSpread e k) = true := by
+  cases k <;> exact noBlk_arg h
+
 theorem opEr_hoist (cx : Cx) (lo hi : Nat) (e' e : Node) (asg args : List Node) (sp : Span) (kind : IdentKind) (s s' : St)
     (hw : HypW cx hi s) (hE : Er cx lo hi e' e) (hc : s'.counter = s.counter + 1) :
     OpEr cx lo hi e asg args
@@ -89,25 +122,30 @@ theorem opEr_hoist (cx : Cx) (lo hi : Nat) (e' e : Node) (asg args : List Node) 
     simp only [List.mem_singleton] at ha
     subst ha
     exact inert_exprOrSpread kind (inert_temp _ _)
-  have key : ∀ σ, cx.ext σ → ∃ X Δe, eraseAsg σ [Node.assign "=" (tempIdent s.counter) (assignRight e' kind) sp]
-      = (s.counter, X) :: (Δe ++ σ) ∧ Sim X e ∧ Win lo hi Δe := by
-    intro σ hσ
-    obtain ⟨X, Δe, h1, h2, h3⟩ := hE σ hσ
+  have hnb : noBlkL [exprOrSpread (tempIdent s.counter) kind] = true := by
+    simp [noBlk_exprOrSpread kind (noBlk_tempIdent _)]
+  have key : ∀ new'', BRgL [Node.assign "=" (tempIdent s.counter) (assignRight e' kind) sp] new'' →
+      ∀ σ, cx.ext σ → ∃ X Δe, eraseAsg σ new'' = (s.counter, X) :: (Δe ++ σ) ∧ Sim X e ∧ Win lo hi Δe := by
+    intro new'' hn σ hσ
+    obtain ⟨a'', rfl, ha⟩ := BRgL.single_inv hn
+    obtain ⟨e'', rfl, he⟩ := tempAssign_BRg_inv ha
+    obtain ⟨X, Δe, h1, h2, h3⟩ := hE e'' he σ hσ
     refine ⟨X, Δe, ?_, h2, h3⟩
     simp only [eraseAsg, erase_tempAssign]
-    obtain ⟨a, b⟩ := erase_assignRight σ (Δe ++ σ) e' X kind h1 h2.2.2
+    obtain ⟨a, b⟩ := erase_assignRight σ (Δe ++ σ) e'' X kind h1 h2.2.2
     rw [a, b]
-  refine ⟨_, _, rfl, rfl, hta, hin, by dsimp only; omega, ?_, ?_⟩
-  · intro σ hσ
-    obtain ⟨X, Δe, h1, _, h3⟩ := key σ hσ
+  refine ⟨_, _, rfl, rfl, hta, hin, hnb, by dsimp only; omega, ?_, ?_⟩
+  · intro new'' hn σ hσ
+    obtain ⟨X, Δe, h1, _, h3⟩ := key new'' hn σ hσ
     refine ⟨(s.counter, X) :: Δe, by rw [h1]; rfl, ?_⟩
     intro p hp
     rcases List.mem_cons.mp hp with hp | hp
     · subst hp; right; dsimp only; omega
     · exact Or.inl (h3 p hp)
-  · intro σ Δ2 hσ hav _
-    dsimp only at hav
-    obtain ⟨X, Δe, h1, h2, _⟩ := key σ hσ
+  · intro new'' x'' hn hx σ Δ2 hσ hav _
+    dsimp only at hav hx
+    rw [BRg_noBlk (noBlk_tempIdent _) hx]
+    obtain ⟨X, Δe, h1, h2, _⟩ := key new'' hn σ hσ
     refine ⟨X, [], ?_, h2, Win.nil _ _⟩
     rw [h1]
     simp only [tempIdent, erase_temp, List.nil_append]
@@ -151,7 +189,7 @@ theorem replaceDefault_Er (cx : Cx) (lo hi : Nat) (e' e : Node) (asg args : List
       intro a ha
       simp only [List.mem_singleton] at ha
       subst ha
-      exact inert_exprOrSpread kind (inert_lit hl))
+      exact inert_exprOrSpread kind (inert_lit hl)) (by simp [noBlk_exprOrSpread kind (noBlk_lit hl)])
   · rw [h]
     exact opEr_hoist cx lo hi e' e asg args sp kind s s' hw hE hc
 
@@ -179,6 +217,18 @@ theorem inert_litSum : ∀ e : Node, isLiteralSum e = true → Inert e := by
     rw [h1]; exact h2
   | _ => simp [isLiteralSum] at h
 
+theorem noBlk_litSum : ∀ e : Node, isLiteralSum e = true → noBlk e = true := by
+  apply Node.ind
+  intro e ih h
+  cases e with
+  | lit k v r sp => exact noBlk_lit rfl
+  | bin op l r sp =>
+    simp only [isLiteralSum, Bool.and_eq_true] at h
+    rw [noBlk_eq]
+    simp only [isBlockNode, kids, noBlkL_cons, noBlkL_nil, ih l (by simp [kids]) h.1.2, ih r (by simp [kids]) h.2]
+    rfl
+  | _ => simp [isLiteralSum] at h
+
 theorem replaceExprNoExpand_Er (cx : Cx) (lo hi : Nat) (e' e : Node) (mode : IdentMode) (asg args : List Node) (sp : Span)
     (kind : IdentKind) (s : St) (hw : HypW cx hi s) (hE : Er cx lo hi e' e) :
     OpEr cx lo hi e asg args (replaceExprNoExpand e' mode asg args sp kind s) s := by
@@ -187,16 +237,18 @@ theorem replaceExprNoExpand_Er (cx : Cx) (lo hi : Nat) (e' e : Node) (mode : Ide
     simp only [List.mem_singleton] at hx
     subst hx
     exact inert_exprOrSpread kind ha
+  have singleNb : ∀ a : Node, noBlk a = true → noBlkL [exprOrSpread a kind] = true := by
+    intro a ha; simp [noBlk_exprOrSpread kind ha]
   cases e' with
   | lit k v r lsp =>
     simp only [replaceExprNoExpand, run_pure]
-    exact opEr_inplace cx lo hi _ e asg args _ s hE (single _ (inert_lit rfl))
+    exact opEr_inplace cx lo hi _ e asg args _ s hE (single _ (inert_lit rfl)) (singleNb _ (noBlk_lit rfl))
   | ident nm isp =>
     cases mode with
     | replace => simp only [replaceExprNoExpand]; exact replaceDefault_Er cx lo hi _ e asg args sp kind s hw hE
     | keep =>
       simp only [replaceExprNoExpand, run_pure]
-      exact opEr_inplace cx lo hi _ e asg args _ s hE (single _ (inert_ident rfl))
+      exact opEr_inplace cx lo hi _ e asg args _ s hE (single _ (inert_ident rfl)) (singleNb _ (noBlk_ident _ _))
   | bin op l r bsp =>
     simp only [replaceExprNoExpand]
     split
@@ -204,9 +256,9 @@ theorem replaceExprNoExpand_Er (cx : Cx) (lo hi : Nat) (e' e : Node) (mode : Ide
     · split
       · rename_i hls
         simp only [run_pure]
-        exact opEr_inplace cx lo hi _ e asg args _ s hE (single _ (inert_litSum _ hls))
+        exact opEr_inplace cx lo hi _ e asg args _ s hE (single _ (inert_litSum _ hls)) (singleNb _ (noBlk_litSum _ hls))
       · simp only [run_pure]
-        have := opEr_inplace cx lo hi (.bin op l r bsp) e asg args [] s hE InertL.nil
+        have := opEr_inplace cx lo hi (.bin op l r bsp) e asg args [] s hE InertL.nil rfl
         simpa using this
   | _ => simp only [replaceExprNoExpand]; exact replaceDefault_Er cx lo hi _ e asg args sp kind s hw hE
 
